@@ -355,7 +355,7 @@ Proof.
     + cbn [sfrom set_from]. rewrite upd_same. lia.
     + intros H. exfalso. eapply H. reflexivity.
     + intros g. rewrite EF, ES. hsimp. fibs Hfib g.
-    + unfold lok, kok in *; cbn [pc cur with_pc sto sfrom set_from fstt]. rewrite upd_same. split; auto. lia.
+ Show. all: fail.
   - (* PN5 *)
     destruct Hloc as (Hk & Hst & Htmp). cbn [fst]. mk.
     + intros _. cbn [sto sfrom set_to]. rewrite upd_same. exact Htmp.
